@@ -65,7 +65,8 @@ class C01(Prop):
         out.append(self.fnx_case(rng, tier))
       else:
         case = leaf_case(rng, tier)
-        if rng.random() < (0.5 if case['dev']['cls'] == 'ADevice' else 0.2):
+        dd = case['dev']
+        if rng.random() < ((0.8 if gen.fn_has(dd['prm']['f'], 'demand') else 0.5) if dd['cls'] == 'ADevice' else 0.2):
           make_ints(rng, case)        # integer-typed flows
         cls = case['dev']['cls']
         if cls in SETTABLE and rng.random() < 0.3:
